@@ -76,6 +76,15 @@ AVOID = {
     # 'NoneType' - 'float') or temperatures that already exceed the range (-> ValueError -> vJ returned, cut missed).
     # While True, cut cases whose bracket-end matching is None or not the exact one are labelled and skipped.
     "fastest_bracket_end": True,
+    # Same root cause (ii), seen through the scans of the cut kind: findMatching returns non-solutions for ~10 % of
+    # slow walls (flux residual ~1e-2; C02 finding F1a).  While True the scans of slower walls start at vw = 0.02;
+    # slow walls remain in the matching kind, where the failing classes are .../deflagration/vw<0.01|vw<0.1.
+    "slow_walls_in_scans": True,
+    # fastestDeflag() assumes T+(vw) monotone: it looks for a sign change of T+(vw) - TMaxHighT between vMin + 1e-3
+    # and vJ - 1e-3 (and returns vJ at once if T(vJ - 1e-3) is inside the ranges).  T+ of hybrids falls again
+    # towards vJ (the shock becomes thin), so a range end with T+(vJ - 1e-3) < TMaxHighT < max T+ is exceeded on an
+    # interval of velocities that the search does not see: the cut is missed.  While True such cuts are skipped.
+    "fastest_reentrant": True,
 }
 if os.environ.get("VERIF_NO_AVOID"):
     AVOID = {k: False for k in AVOID}
@@ -155,8 +164,18 @@ def st_cut(draw, tier):
             "genuine": draw(st.booleans()), "extrapolate": draw(st.booleans())}
 
 
+@st.composite
+def st_case(draw, tier):
+    k = draw(st.integers(0, 19))   # explicit weights: 15 matching : 2 jouguet : 3 cut
+    if k < 15:
+        return draw(st_matching(tier))
+    if k < 17:
+        return draw(st_jouguet(tier))
+    return draw(st_cut(tier))
+
+
 def strategy(tier):
-    return st.one_of([st_matching(tier)] * 15 + [st_jouguet(tier)] * 2 + [st_cut(tier)] * 3)
+    return st_case(tier)
 
 
 # ---------------------------------------------------------------------------------------------
@@ -270,8 +289,7 @@ def deton_eps(ctx, vw, Tm):
         return float("inf")
 
 
-def speed_bucket(vw):
-    return "vw<0.02" if vw < 0.02 else "vw<0.1" if vw < 0.1 else "vw>=0.1"
+speed_bucket = Z.speed_bucket   # same buckets as C02/C03 so that class strings line up
 
 
 def judge_matching(v, ctx, vw, res, cls0, want=None, sub_prefix=""):
@@ -748,6 +766,20 @@ def check_cut(case, v):
             # known finding C06-fastestDeflag-bracket-end (see AVOID): steer around it
             v.label("avoided:fastest_bracket_end")
             return v
+    # does the temperature of the phase cut first come back below the range end before vJ - 1e-3 ?
+    reentrant = False
+    try:
+        mtop = R.match_deflag(eos, Tn, vJ - 1e-3)
+    except R.RefFailure:
+        mtop = None
+    if mtop is not None and mtop.ok:
+        reentrant = any((mtop.Tm if k == "low" else mtop.Tp) < cuts[k][1] for k in cuts)
+    if reentrant:
+        v.label("cut:reentrant")
+        cls0 += "/reentrant"
+        if AVOID["fastest_reentrant"] and not case.get("force"):
+            v.label("avoided:fastest_reentrant")
+            return v
     rg = _ranges(meta, low_hi=cuts["low"][1] / Tn if "low" in cuts else None,
                  high_hi=cuts["high"][1] / Tn if "high" in cuts else None,
                  genuine=case["genuine"], extrapolate=case["extrapolate"])
@@ -815,6 +847,8 @@ def check_cut(case, v):
     v.checked("cut-slower")
     n = 16
     a = max(vmin, 1e-3) + 1e-3
+    if AVOID["slow_walls_in_scans"] and not case.get("force"):
+        a = max(a, 0.02)
     top = vf - 2.0 * allowed - 1e-3 * vf
     Tlow_max = rg["low"][1] * Tn
     Thigh_max = rg["high"][1] * Tn
